@@ -6,9 +6,9 @@
    Nothing is assumed of the interpreter any more (the entry conditions `ops_ok` of Props/C14.v are
    consequences here).  What is assumed of the INPUTS: every layout has pairwise distinct names
    ([wf_codeb], [wf_step]: the compiler builds layouts from a name -> index map; the tie checks it on
-   every compiled unit), a module's exports are registered under names that are not slots of the
-   module's own layout unless alias = name, and a layout is identified by its names (GlobalLayout::new
-   interns; also checked by the tie).
+   every compiled unit) and a layout is identified by its names (GlobalLayout::new interns; also
+   checked by the tie).  (Until 8825c3e the export registration and the host's VM::set_global wrote the
+   by-name map only and needed a side condition; now set_global writes the loaded slot too.)
 
    The specification ([xsession]) is a by-name store with no layouts, snapshots or frames.  After a
    step that FAILS, the names that step wrote are unspecified (the property text leaves the partial
@@ -56,6 +56,13 @@ Theorem rejected_input_changes_nothing_in_sessions : forall C fuel d L body nm i
   mstep C fuel d (SInput [] false L body nm im) =
     (mkD (with_frames (d_vm d) []) (d_known d) (d_mut d), [], SErr).
 Proof. exact rejected_input_changes_nothing. Qed.
+
+(* VM::set_global (the host API, and the module loader's export registration) keeps the two views
+   coherent in every state between steps, whatever layout is loaded *)
+Theorem set_global_keeps_views_coherent : forall T vm s a v,
+  bnd T vm s ->
+  bnd T (set_name vm a v) (mkS ((a, v) :: s_store s) (s_heap s) (s_next s)).
+Proof. exact bnd_set_name. Qed.
 
 (* non-vacuity: a session with a callback through a function without globals, host calls (one with
    the wrong arity), a failing input with partial effects, a rejected input and an aliased import is
